@@ -60,6 +60,21 @@ func goMapKeyTrouble(c HCase) bool {
 			return true
 		}
 	}
+	// a float that is not a number is eql to itself, but a Go map never finds a NaN key again
+	for _, i := range used {
+		if k := c.Keys[i]; k.K == "src" && strings.Contains(k.S, "(- (* 1e308 10) (* 1e308 10))") {
+			return true
+		}
+	}
+	// infinities of different float types are eql for slip, and separate keys of the Go map
+	special := func(o Obj) bool { return o.K == "src" && strings.Contains(o.S, "1e308") }
+	for a, i := range used {
+		for _, j := range used[a+1:] {
+			if x, y := c.Keys[i], c.Keys[j]; special(x) && special(y) && x.S != y.S {
+				return true
+			}
+		}
+	}
 	// a complex number is one more number type: #C(1 0) is eql to 1 and 1.0 but a different Go value
 	isComplex := func(o Obj) bool { return o.K == "src" && strings.HasPrefix(o.S, "#C(") }
 	for a, i := range used {
